@@ -55,9 +55,77 @@ func multiScenario(r *prng.R, cfg GenCfg, maxIters, maxThreads int) *Scenario {
 	return sc
 }
 
+// statelessTerm draws a term whose thunks touch no per-run state (effects and literal yields
+// only): an endless stream built from Loop/Bind/Combine/Delay, optionally with an inner loop
+// left by Break. Such a Seq VALUE may be started any number of times.
+func statelessTerm(r *prng.R) *Term {
+	tag := 0
+	nt := func() int { tag++; return tag }
+	eff := func() []Stmt { return []Stmt{{Tag: nt(), Ctr: -1}} }
+	var chain func(n int, end *Term) *Term
+	chain = func(n int, end *Term) *Term {
+		t := end
+		for i := 0; i < n; i++ {
+			t = &Term{K: TBind, RecvCtr: -1, Val: Expr{Ctr: -1, Lit: r.Range(1, 9), Tag: nt()}, Th: &Thunk{Pre: eff(), Ret: t}}
+		}
+		return t
+	}
+	body := chain(1+r.Intn(3), leaf([]TK{TNormal, TNormal, TContinue}[r.Intn(3)]))
+	if r.Chance(1, 2) {
+		inner := &Term{K: TLoop, RecvCtr: -1, A: &Term{K: TDelay, RecvCtr: -1, Th: &Thunk{Pre: eff(), Ret: chain(1+r.Intn(2), leaf(TBreak))}}}
+		if r.Bool() {
+			body = &Term{K: TCombine, RecvCtr: -1, A: inner, B: body}
+		} else {
+			body = &Term{K: TCombine, RecvCtr: -1, A: body, B: inner}
+		}
+	}
+	if r.Chance(1, 3) {
+		body = &Term{K: TCombine, RecvCtr: -1, A: body, B: chain(1, leaf(TNormal))}
+	}
+	return &Term{K: TLoop, RecvCtr: -1, A: &Term{K: TDelay, RecvCtr: -1, Th: &Thunk{Pre: eff(), Ret: body}}}
+}
+
+// sharedValueScenario: k iterators started from ONE constructed Seq value.
+func sharedValueScenario(r *prng.R, maxIters, maxThreads int) *Scenario {
+	sc := &Scenario{Terms: []*Term{statelessTerm(r)}, SharedValue: true}
+	k := 2 + r.Intn(maxIters-1)
+	m := 1 + r.Intn(maxThreads)
+	if m > k {
+		m = k
+	}
+	per := make([][]Op, k)
+	for h := 0; h < k; h++ {
+		sc.RootOf = append(sc.RootOf, 0)
+		n := 2 + r.Intn(8)
+		for i := 0; i < n; i++ {
+			per[h] = append(per[h], Op{K: OMove, H: h})
+			if r.Bool() {
+				per[h] = append(per[h], Op{K: OCur, H: h})
+			}
+		}
+	}
+	sc.Threads = make([][]Op, m)
+	idx := make([]int, k)
+	for {
+		var live []int
+		for h := 0; h < k; h++ {
+			if idx[h] < len(per[h]) {
+				live = append(live, h)
+			}
+		}
+		if len(live) == 0 {
+			break
+		}
+		h := live[r.Intn(len(live))]
+		sc.Threads[h%m] = append(sc.Threads[h%m], per[h][idx[h]])
+		idx[h]++
+	}
+	return sc
+}
+
 // soloOf extracts iterator h with its own ops as a single-thread scenario.
 func soloOf(sc *Scenario, h int) *Scenario {
-	s := &Scenario{Terms: sc.Terms, RootOf: []int{sc.RootOf[h]}, Threads: [][]Op{nil}}
+	s := &Scenario{Terms: sc.Terms, RootOf: []int{sc.RootOf[h]}, Threads: [][]Op{nil}, SharedValue: sc.SharedValue}
 	for _, ops := range sc.Threads {
 		for _, op := range ops {
 			if op.H == h && op.K != OQuiesce {
@@ -117,14 +185,20 @@ func C14(j *core.Job) {
 		perBatch, maxIters, maxThreads = 1000, 6, 4
 	}
 	rep := j.Rep
-	for _, k := range []string{"shared_seq_started_twice", "thread_switches", "sched_points", "preempted_inside_step"} {
+	for _, k := range []string{"one_seq_value_started_several_times", "shared_seq_started_twice", "thread_switches", "sched_points", "preempted_inside_step"} {
 		rep.Count(k, 0)
 	}
 	for _, b := range j.Batches {
 		cfg := SwarmCfg(prng.Derive(j.Seed, "C14", b, "cfg"), 14, b%2 == 0)
 		for i := 0; i < perBatch; i++ {
 			r := prng.Derive(j.Seed, "C14", b, i)
-			sc := multiScenario(r, cfg, maxIters, maxThreads)
+			var sc *Scenario
+			if i%5 == 4 {
+				sc = sharedValueScenario(r, maxIters, maxThreads)
+				rep.Count("one_seq_value_started_several_times", 1)
+			} else {
+				sc = multiScenario(r, cfg, maxIters, maxThreads)
+			}
 			// draw the interleaving once with the PRNG, then everything replays the recorded choices
 			pilot := Play(sc, Real, PlayOpt{PanicAt: -1, Fuel: defaultFuel, UseSched: true, Rng: prng.Derive(j.Seed, "C14sched", b, i)})
 			c := &Case{Property: "C14", Layer: "R", Oracle: "solo", Seed: j.Seed, Batch: b, Index: i, Sc: sc, UseSched: true,
